@@ -1,48 +1,68 @@
 #!/usr/bin/env python3
-"""seedtest.py [<seed-id> …] [--props C01,C02] [--tier quick] — apply each seeded breaking change
-(/verif/seeded/<id>/patch.diff) to /repo, run the check of the property it breaks (and any extra
-properties given), record the verdicts in /verif/seeded/<id>/result.json, and undo the change
-(git -C /repo checkout -- . ; regenerate Gen).  Never leaves /repo modified."""
-import json, os, subprocess, sys, time
+"""seedtest.py [<seed-id> …] [--props=C01,C02] [--tier=quick] [--all-props]
+
+Runs the checks against each seeded breaking change (/verif/seeded/<id>/patch.diff) WITHOUT touching
+/repo or /verif: a sandbox copy of /verif (build caches included) and a scratch git worktree of /repo
+are created under /tmp/sv, the patch is applied to the worktree, the copy's `harness/repo` symlink and
+VERIF_REPO point at it, and `checks/check.py` of the copy is run.  Verdicts are written to
+/verif/seeded/<id>/result.json.  (Applying a patch to /repo itself —
+`git -C /repo apply seeded/<id>/patch.diff; python3 checks/check.py <prop>; git -C /repo checkout -- .` — gives
+the same verdicts; the sandbox only keeps concurrent work on /repo undisturbed.)"""
+import json, os, subprocess, sys, time, shutil
 V = os.path.dirname(os.path.dirname(os.path.abspath(__file__)))
-R = "/repo"
+SV = "/tmp/sv"
 
 def sh(cmd, **kw):
     return subprocess.run(cmd, shell=True, capture_output=True, text=True, **kw)
 
 def main():
-    args = [a for a in sys.argv[1:] if not a.startswith("--")]
-    extra = []
-    tier = "quick"
+    ids = [a for a in sys.argv[1:] if not a.startswith("--")]
+    extra, tier, allp = [], "quick", False
     for a in sys.argv[1:]:
         if a.startswith("--props="): extra = a.split("=", 1)[1].split(",")
         if a.startswith("--tier="): tier = a.split("=", 1)[1]
-    ids = args or sorted(os.listdir(os.path.join(V, "seeded")))
-    assert sh(f"git -C {R} status --porcelain --untracked-files=no").stdout.strip() == "", "/repo has local modifications"
-    for sid in ids:
-        d = os.path.join(V, "seeded", sid)
-        if not os.path.isfile(os.path.join(d, "patch.diff")):
-            continue
-        meta = json.load(open(os.path.join(d, "meta.json")))
-        props = [meta["property"]] + [p for p in extra if p != meta["property"]]
-        r = sh(f"git -C {R} apply {d}/patch.diff")
-        if r.returncode != 0:
-            print(f"{sid}: patch does not apply: {r.stderr.strip()}"); continue
-        res = {"seed": sid, "property": meta["property"], "tier": tier, "verdicts": {}}
-        try:
+        if a == "--all-props": allp = True
+    ids = ids or sorted(d for d in os.listdir(os.path.join(V, "seeded")) if os.path.isfile(os.path.join(V, "seeded", d, "patch.diff")))
+    os.makedirs(SV, exist_ok=True)
+    r = sh(f"rsync -a --delete --exclude .git --exclude harness/target --exclude work --exclude replays --exclude 'evidence/*' {V}/ {SV}/verif/")
+    assert r.returncode in (0, 24), r.stderr   # 24: files vanished (concurrent builds)
+    sh(f"git -C /repo worktree remove --force {SV}/repo")
+    r = sh(f"git -C /repo worktree add -q --detach {SV}/repo HEAD"); assert r.returncode == 0, r.stderr
+    sh(f"ln -sfn {SV}/repo {SV}/verif/harness/repo")
+    env = dict(os.environ, VERIF_REPO=f"{SV}/repo", CARGO_TARGET_DIR=f"{SV}/target")
+    claimed = [c["property_id"] for c in json.load(open(os.path.join(V, "MANIFEST.json")))["checks"]]
+    try:
+        for sid in ids:
+            d = os.path.join(V, "seeded", sid)
+            meta = json.load(open(os.path.join(d, "meta.json")))
+            props = [meta["property"]] + [p for p in (claimed if allp else extra) if p != meta["property"]]
+            sh(f"git -C {SV}/repo checkout -q -- . && git -C {SV}/repo clean -fdq")
+            r = sh(f"git -C {SV}/repo apply {d}/patch.diff")
+            if r.returncode != 0:
+                print(f"{sid}: patch does not apply: {r.stderr.strip()}"); continue
+            res = {"seed": sid, "property": meta["property"], "tier": tier, "verdicts": {}}
             for p in props:
                 t0 = time.time()
-                c = sh(f"python3 checks/check.py {p} --tier {tier}", cwd=V)
+                c = sh(f"python3 checks/check.py {p} --tier {tier}", cwd=f"{SV}/verif", env=env)
                 lines = [l for l in c.stdout.splitlines() if l.startswith("VIOLATION") or l.startswith("KNOWN-FINDING")]
-                res["verdicts"][p] = {"exit": c.returncode, "lines": lines, "wall_s": round(time.time() - t0, 1),
+                detail = ""
+                for l in lines:
+                    if l.startswith("VIOLATION") and "replay=" in l:
+                        rp = l.split("replay=")[1].split()[0]
+                        try:
+                            j = json.load(open(rp))
+                            f = (j.get("failures") or [{}])[0]
+                            detail = (f.get("message") or f.get("what") or json.dumps(j.get("obligations_not_discharged", [])[:2]))[:400]
+                        except Exception as e:
+                            detail = f"(replay unreadable: {e})"
+                res["verdicts"][p] = {"exit": c.returncode, "lines": [l.replace(SV + "/verif", "/verif") for l in lines], "wall_s": round(time.time() - t0, 1),
                                       "detected": c.returncode == 1 and any(l.startswith("VIOLATION") for l in lines),
-                                      "with_failing_input": any(l.startswith("VIOLATION") and "no-failing-input-found" not in l for l in lines)}
-                print(f"{sid}: {p}: exit {c.returncode} {lines[:2]}", flush=True)
-        finally:
-            sh(f"git -C {R} checkout -- .")
-            sh(f"python3 translator/rs2lean.py {R} lean/BumpProof/Gen", cwd=V)
-        json.dump(res, open(os.path.join(d, "result.json"), "w"), indent=1)
-    assert sh(f"git -C {R} status --porcelain --untracked-files=no").stdout.strip() == ""
+                                      "with_failing_input": any(l.startswith("VIOLATION") and "no-failing-input-found" not in l for l in lines),
+                                      "first_failure": detail, "tail": c.stdout.strip().splitlines()[-1:] }
+                print(f"{sid}: {p}: exit {c.returncode} {[l[:110] for l in lines[:2]]} :: {detail[:160]}", flush=True)
+            json.dump(res, open(os.path.join(d, "result.json"), "w"), indent=1)
+    finally:
+        sh(f"git -C /repo worktree remove --force {SV}/repo")
 
 if __name__ == "__main__":
     main()
